@@ -137,6 +137,18 @@ def recurrenceNetwork (m : Metric) (emb : List (List V)) (mv : Bool) (s : Spec) 
     let A := if mv then deleteMasked A (missingMask emb) else A
     .ok ⟨A, p.R, A.length⟩
 
+/-- `inter_system_recurrence_matrix`: `ISRM = np.zeros((N, N))` and the four slice assignments
+`ISRM[:N_x, :N_x] = Rx; ISRM[:N_x, N_x:N] = CR; ISRM[N_x:N, :N_x] = CR.T; ISRM[N_x:N, N_x:N] = Ry`
+with every written bound generated from the source (absent lower bounds are `0`) -/
+def isrmParts (N : Int) (nx ny : Nat) (Rx Ry CR : List (List Bool)) :
+    List (Slot × List (List Bool)) :=
+  [(⟨0, ArithC07.isrmXXRowHi N nx, 0, ArithC07.isrmXXColHi N nx⟩, Rx),
+   (⟨0, ArithC07.isrmXYRowHi N nx, ArithC07.isrmXYColLo N nx, ArithC07.isrmXYColHi N nx⟩, CR),
+   (⟨ArithC07.isrmYXRowLo N nx, ArithC07.isrmYXRowHi N nx, 0, ArithC07.isrmYXColHi N nx⟩,
+      transpose CR nx ny),
+   (⟨ArithC07.isrmYYRowLo N nx, ArithC07.isrmYYRowHi N nx, ArithC07.isrmYYColLo N nx,
+      ArithC07.isrmYYColHi N nx⟩, Ry)]
+
 /-- `InterSystemRecurrenceNetwork.__init__` with thresholds / rates `(s1, s2, s3)`;
 `N_x`, `N_y` are the numbers of (embedded) state vectors -/
 def interSystem (m : Metric) (ex ey : List (List V)) (s1 s2 s3 : Spec)
@@ -147,8 +159,57 @@ def interSystem (m : Metric) (ex ey : List (List V)) (s1 s2 s3 : Spec)
   (recurrencePlot m ey false s2).bind fun py =>
   (crossPlot m ex ey s3).bind fun pc =>
     let total := ArithC07.isrnTotalN nx ny
-    (Res.valueError.ofOption (isrm nx ny px.R py.R pc.R)).bind fun I =>
+    (Res.valueError.ofOption (assemble total.toNat (isrmParts total nx ny px.R py.R pc.R))).bind fun I =>
       let A := adjacencyOf I (if rate then ArithC07.isrnStrideRate total else ArithC07.isrnStride total)
       .ok ⟨A, I, A.length⟩
+
+/-! ### `threshold_std`, `normalize`, adaptive neighbourhood size on objects -/
+
+/-- `RecurrencePlot.__init__(…, threshold_std=s)`: `series` is the stored `(n, d)` array
+(after normalisation, before embedding) whose `std()` scales the threshold -/
+def recurrencePlotStd (m : Metric) (series emb : List (List V)) (mv : Bool) (s : Rat) : Plot :=
+  ⟨fixedThresholdStd m series emb s mv, emb.length, emb.length⟩
+
+/-- the stored series: `normalize_time_series` when `normalize=True`
+(`none`: irrational standard deviation, outside the exact model) -/
+def storedSeries (series : List (List V)) (norm : Bool) : Option (List (List V)) :=
+  if norm then normalizeSeries series else some series
+
+/-- `distance.argsort(axis=1)` for one row: positions in ascending order of distance,
+NaN last.  Among *tied* distances NumPy's order is unspecified (introsort); the model
+takes the stable one and the correspondence only uses rows without ties. -/
+def argsortV (row : List V) : List Nat :=
+  ((row.zipIdx).mergeSort fun a b => leV a.1 b.1).map (·.2)
+
+/-- `RecurrencePlot.set_adaptive_neighborhood_size(kA, order)`: neighbours from the sorted
+distance rows, default order `arange(n)`; the kernel reads `order[j]` for `j < n`
+(IndexError when a custom order is shorter and at least one round runs) -/
+def adaptivePlot (m : Metric) (emb : List (List V)) (kA : Nat) (order : Option (List Nat)) :
+    Res Plot :=
+  let D := distRP m emb
+  let n := D.length
+  let sn := D.map argsortV
+  let ord := order.getD (List.range n)
+  if ord.length < n ∧ 0 < kA then .indexError else
+  (Res.indexError.ofOption (adaptive n kA sn (ord.take n))).bind fun R =>
+    .ok ⟨bmTab n R, emb.length, emb.length⟩
+
+/-- `JointRecurrencePlot.set_fixed_threshold_std`: thresholds `s·std(x)`, `s'·std(y)` of the
+stored (un-embedded, un-pruned) series, then the same composition as `set_fixed_threshold` -/
+def jointPlotStd (mx my : Metric) (sX sY ex ey : List (List V)) (nRaw : Nat) (lag : Int)
+    (s1 s2 : Rat) : Res Plot :=
+  let n := min ex.length ey.length
+  let ex := ex.take n
+  let ey := ey.take n
+  if lag.natAbs > nRaw then .valueError else
+  let Rx := thresholdSq mx (distRP mx ex) (stdThrSq s1 (varV sX.flatten))
+  let Ry := thresholdSq my (distRP my ey) (stdThrSq s2 (varV sY.flatten))
+  (Res.valueError.ofOption (jointSlices Rx Ry lag (jBoundsThr n lag))).bind fun JR =>
+    .ok ⟨JR, ArithC07.jrpReportedN n lag, ArithC07.jrpReportedN n lag⟩
+
+/-- a network built from any plot: `A = R.copy(); A.flat[::stride] = 0` -/
+def networkOf (p : Plot) (stride : Int) : Net :=
+  let A := adjacencyOf p.R stride
+  ⟨A, p.R, A.length⟩
 
 end Pyunicorn.Recurrence
